@@ -73,6 +73,9 @@ func concretise(s Shape) resource.Resource {
 	}
 
 	switch s.Ts {
+	case "zero": // timestamps never set (metadata parsed from a manifest without them, zero Metadata)
+		r.Metadata().SetCreated(time.Time{})
+		r.Metadata().SetUpdated(time.Time{})
 	case "sec":
 		r.Metadata().SetCreated(time.Unix(1700000000, 0).UTC())
 		r.Metadata().SetUpdated(time.Unix(1700000300, 0).UTC())
